@@ -242,20 +242,26 @@ LKids(f)  == {g \in FeatIds : FT[g].par = f /\ IsLeafL(g)}
 NmSps(f)  == {s \in (IF f = "r.auth_hmac" THEN {"block"} ELSE FT[f].sps) :
                 (FT[f].nmax > 1 /\ "line" \in FT[f].sps) => s = "line"}
 
+NmRec(it, f, sp, pos, v, kf, kv) ==
+  [r |-> it.r, f |-> f, i |-> (IF f = it.f \/ IdxRootT[f] # "-" THEN it.i ELSE 1), sp |-> sp,
+   v |-> v, v2 |-> (IF UsesV2(f, sp, 1) THEN "bare" ELSE "-"), n |-> 1, pos |-> pos, kf |-> kf, kv |-> kv]
+
+\* candidate extra instances for item `it` (a set: each near-miss program is generated once)
+NmOf(it) ==
+  UNION {UNION {UNION {UNION {UNION {
+      {NmRec(it, f, sp, pos, v, kf, kv) : kv \in (IF kf = "-" THEN {"-"} ELSE NmVC)}
+        : kf \in {"-"} \cup (IF sp \in FT[f].blk THEN LKids(f) ELSE {})}
+        : v \in (IF UsesV(f, sp) THEN VFor(f) \cap (NmVC \cup {"bare"}) ELSE {"-"})}
+        : pos \in {"before", "after"}}
+        : sp \in NmSps(f)}
+        : f \in ({it.f} \cup {h \in FeatIds : <<it.f, h>> \in Partner}) \cap NmScope}
+
 AddNm ==
   /\ NmScope # {} /\ p.nm = << >>
-  /\ \E k \in (nbase + 1) .. Len(p.items) :
-       LET it == p.items[k] IN
-       \E f \in ({it.f} \cup {h \in FeatIds : <<it.f, h>> \in Partner}) \cap NmScope :
-       \E sp \in NmSps(f), pos \in {"before", "after"} :
-       \E v \in (IF UsesV(f, sp) THEN VFor(f) \cap (NmVC \cup {"bare"}) ELSE {"-"}) :
-       \E kf \in {"-"} \cup (IF sp \in FT[f].blk THEN LKids(f) ELSE {}) :
-       \E kv \in (IF kf = "-" THEN {"-"} ELSE NmVC) :
-         LET x == [r |-> it.r, f |-> f, i |-> (IF f = it.f \/ IdxRootT[f] # "-" THEN it.i ELSE 1), sp |-> sp,
-                   v |-> v, v2 |-> (IF UsesV2(f, sp, 1) THEN "bare" ELSE "-"), n |-> 1,
-                   pos |-> pos, kf |-> kf, kv |-> kv]
-         IN /\ WFNm(x, Items(p), Len(p.routes))
-            /\ p' = [p EXCEPT !.nm = << x >>]
+  /\ \E x \in UNION {NmOf(p.items[k]) : k \in (nbase + 1) .. Len(p.items)} :
+       \* IF: the guard is evaluated as a value (a disjunction inside an action conjunct would make TLC branch
+       \* and generate the same successor once per true disjunct)
+       IF WFNm(x, Items(p), Len(p.routes)) THEN p' = [p EXCEPT !.nm = << x >>] ELSE FALSE
   /\ UNCHANGED <<last, depth>>
 
 GenNext ==
